@@ -201,6 +201,37 @@ theorem outerMap_spec (s : SymScope) (stack : Stack) (sup : Supply) (n : Nsp) (c
   exact (claimsOf_spec stack _ own hown).1 c hc
 
 
+theorem mem_candidates (s : SymScope) (x : String) (hx : x ∈ s.frees ++ s.nonlocals) (hc : x ≠ "__class__") (m : Bool) :
+    x ∈ (nonlocalCandidates .function s m).1 := by
+  simp only [nonlocalCandidates]
+  split
+  · simp only [List.mem_filter]; exact ⟨hx, by simpa using hc⟩
+  · exact hx
+
+/-- completeness: every free / nonlocal name of a function scope (other than a method's implicit
+    `__class__`) has an entry - no free name is left to Python's own resolution of the generated lambdas -/
+theorem outerMap_complete (s : SymScope) (stack : Stack) (sup : Supply) (n : Nsp) (cl : List Claim) (sup' : Supply)
+    (h : buildNsp stack sup s = .ok (n, cl, sup')) (hk : s.kind = .function) (x : String)
+    (hx : x ∈ s.frees ++ s.nonlocals) (hc : x ≠ "__class__") : ∃ d, (x, d) ∈ n.outerMap := by
+  obtain ⟨name, kind, lineno, symbols, frees, nonlocals, params, methods, children⟩ := s
+  simp only [SymScope.kind] at hk
+  subst hk
+  simp only [buildNsp] at h
+  obtain ⟨own, hown, h⟩ := bind_ok h
+  obtain ⟨⟨kids, kidClaims, globs, sup2⟩, hk, h⟩ := bind_ok h
+  cases pure_ok h
+  have hall : ∀ (m : Bool) (own : List Claim), claimsOf stack (nonlocalCandidates .function
+      (.mk name .function lineno symbols frees nonlocals params methods children) m).1 = .ok own → ∃ c ∈ own, c.2.1 = x := by
+    intro m own hown
+    have hm := (claimsOf_spec stack _ own hown).2
+    have hx' := mem_candidates _ x hx hc m
+    rw [← hm, List.mem_map] at hx'
+    exact hx'
+  obtain ⟨c, hc1, hc2⟩ := hall _ own hown
+  refine ⟨c.1, ?_⟩
+  simp only [Nsp.outerMap, List.mem_map]
+  exact ⟨c, hc1, by rw [← hc2]⟩
+
 /-! ### fresh dictionary names never collide with those of the enclosing scopes -/
 
 theorem fresh_eq (s : Supply) (p : String) : (s.fresh p).1 = ("__ol_" ++ p ++ "_") ++ "#" ++ toString s.next := by
